@@ -150,76 +150,123 @@ func checkC11(w *World, r *Report) {
 
 	checkResolvesThroughLoad(w, r, "R11.5", []string{"IncludeNode"}, "an include is answered from a per-node or per-context shortcut instead of the template the name denotes now")
 
-	// ---- R11.2 / R11.3 in IncludeNode.Render
+	// ---- R11.2 / R11.3 in IncludeNode.Render and its parts (unexported helpers with that one call
+	// site; flags may travel in a local struct of options and be tested by predicate helpers)
 	inc := w.ssaFunc(w.method("IncludeNode", "Render"))
 	incCtx := inc.Params[2]
-	flagEdge := func(field string, wantTrue bool) func(b *ssa.BasicBlock, i int) bool {
-		return func(b *ssa.BasicBlock, i int) bool {
-			return anyEdgeFact(b, i, func(v ssa.Value, trueIdx int) bool {
-				if _, ok := fieldLoad(v, "IncludeNode", field); ok {
-					return (i == trueIdx) == wantTrue
-				}
+	type part struct {
+		fn     *ssa.Function
+		site   ssa.CallInstruction
+		parent *ssa.Function
+	}
+	parts := []part{{fn: inc}}
+	isPart := map[*ssa.Function]bool{inc: true}
+	for k := 0; k < len(parts) && k < 12; k++ {
+		pf := parts[k].fn
+		instrsOf(pf, func(in ssa.Instruction) {
+			c, ok := in.(ssa.CallInstruction)
+			if !ok {
+				return
+			}
+			g := c.Common().StaticCallee()
+			if g == nil || isPart[g] || g.Pkg == nil || g.Pkg.Pkg.Path() != twigPath || g.Object() == nil || g.Object().Exported() || len(g.Blocks) == 0 {
+				return
+			}
+			if _, isCall := in.(*ssa.Call); !isCall {
+				return
+			}
+			if in := realInEdges(g); len(in) != 1 || in[0].Site != c {
+				return
+			}
+			isPart[g] = true
+			parts = append(parts, part{g, c, pf})
+		})
+	}
+	flagMatch := func(field string, wantTrue bool) factMatcher {
+		return func(v ssa.Value, truth bool, resolve func(ssa.Value) ssa.Value) bool {
+			if truth != wantTrue {
 				return false
-			})
+			}
+			_, ok := fieldLoad(origin(resolve(v)), "IncludeNode", field)
+			return ok
 		}
 	}
-	onlyFalse := &boolFlow{fn: inc, entry: false, edge: flagEdge("only", false)}
-	onlyFalse.solve()
-	n2 := 0
-	instrsOf(inc, func(in ssa.Instruction) {
-		what := ""
-		switch x := in.(type) {
-		case *ssa.Call:
-			if f := x.Call.StaticCallee(); f != nil && ctors[f] {
-				// a constructor that receives the includer's context (Clone) links/reads through
-				for _, a := range x.Call.Args {
-					if a == incCtx {
-						what = "call " + ssaName(f) + " on the includer's context (read-through scope)"
+	// flows: one must-flow per part; a helper starts with what held at its call site
+	flows := func(m factMatcher) map[*ssa.Function]*boolFlow {
+		out := map[*ssa.Function]*boolFlow{}
+		for _, pt := range parts {
+			entry := false
+			if pt.parent != nil {
+				entry = out[pt.parent].at(pt.site)
+			}
+			fl := &boolFlow{fn: pt.fn, entry: entry}
+			fl.edge = func(b *ssa.BasicBlock, i int) bool {
+				for _, cf := range edgeFacts(b, i) {
+					if condImplies(cf.v, cf.truth, m) {
+						return true
 					}
 				}
+				return false
 			}
-		case *ssa.Range:
-			if base, ok := fieldLoad(x.X, "RenderContext", "context"); ok && base == incCtx {
-				what = "copy loop over the includer's variables"
+			fl.solve()
+			out[pt.fn] = fl
+		}
+		return out
+	}
+	onlyFalse := flows(flagMatch("only", false))
+	n2 := 0
+	for _, pt := range parts {
+		pf := pt.fn
+		instrsOf(pf, func(in ssa.Instruction) {
+			what := ""
+			switch x := in.(type) {
+			case *ssa.Call:
+				if f := x.Call.StaticCallee(); f != nil && ctors[f] {
+					// a constructor that receives the includer's context (Clone) links/reads through
+					for _, a := range x.Call.Args {
+						if origin(a) == ssa.Value(incCtx) {
+							what = "call " + ssaName(f) + " on the includer's context (read-through scope)"
+						}
+					}
+				}
+			case *ssa.Range:
+				if base, ok := fieldLoad(origin(x.X), "RenderContext", "context"); ok && origin(base) == ssa.Value(incCtx) {
+					what = "copy loop over the includer's variables"
+				}
+			case *ssa.Store:
+				if _, ok := fieldAddr(x.Addr, "RenderContext", "parent"); ok && origin(x.Val) == ssa.Value(incCtx) {
+					what = "parent link to the includer's context"
+				}
 			}
-		case *ssa.Store:
-			if _, ok := fieldAddr(x.Addr, "RenderContext", "parent"); ok && x.Val == incCtx {
-				what = "parent link to the includer's context"
+			if what == "" {
+				return
 			}
-		}
-		if what == "" {
-			return
-		}
-		n2++
-		if onlyFalse.at(in) {
-			r.ok("R11.2", ssaName(inc), what, w.posOf(in.Pos()), "reachable only where n.only is false", true)
-		} else {
-			r.bad("R11.2", ssaName(inc), what, w.posOf(in.Pos()), "this gives the included template access to the includer's variables on a path on which `only` may be set")
-		}
-	})
+			n2++
+			if onlyFalse[pf].at(in) {
+				r.ok("R11.2", ssaName(pf), what, w.posOf(in.Pos()), "reachable only where n.only is false", true)
+			} else {
+				r.bad("R11.2", ssaName(pf), what, w.posOf(in.Pos()), "this gives the included template access to the includer's variables on a path on which `only` may be set")
+			}
+		})
+	}
 	r.floor("scope-granting constructs in IncludeNode.Render", n2, 2)
 
 	// R11.3
 	notFoundFor := func(errv ssa.Value) *boolFlow {
-		fl := &boolFlow{fn: inc, entry: false}
-		fl.edge = func(b *ssa.BasicBlock, i int) bool {
-			return anyEdgeFact(b, i, func(v ssa.Value, trueIdx int) bool {
-				if i != trueIdx {
-					return false
-				}
-				c, ok := v.(*ssa.Call)
-				if !ok || !isFunc(calleeFunc(c), "errors", "", "Is") || len(c.Call.Args) != 2 {
-					return false
-				}
-				if !sameValue(c.Call.Args[0], errv) {
-					return false
-				}
-				g := globalOf(c.Call.Args[1])
-				return g != nil && g.Name() == "ErrTemplateNotFound"
-			})
-		}
-		fl.solve()
-		return fl
+		return flows(func(v ssa.Value, truth bool, resolve func(ssa.Value) ssa.Value) bool {
+			if !truth {
+				return false
+			}
+			c, ok := v.(*ssa.Call)
+			if !ok || !isFunc(calleeFunc(c), "errors", "", "Is") || len(c.Call.Args) != 2 {
+				return false
+			}
+			if !sameValue(resolve(c.Call.Args[0]), errv) {
+				return false
+			}
+			g := globalOf(c.Call.Args[1])
+			return g != nil && g.Name() == "ErrTemplateNotFound"
+		})[inc]
 	}
 	// swallowedErr: the error whose non-nil test most closely dominates the instruction
 	swallowedErr := func(in ssa.Instruction) ssa.Value {
@@ -253,8 +300,7 @@ func checkC11(w *World, r *Report) {
 		}
 		return nil
 	}
-	ign := &boolFlow{fn: inc, entry: false, edge: flagEdge("ignoreMissing", true)}
-	ign.solve()
+	ign := flows(flagMatch("ignoreMissing", true))[inc]
 	n3 := 0
 	errT := types.Universe.Lookup("error").Type()
 	instrsOf(inc, func(in ssa.Instruction) {
